@@ -73,3 +73,28 @@ def dlite_underconverged(pts, centre):
             return float(((d - d.mean()) ** 2).sum())
         scale = abs(pts[-1] - pts[0]) ** 2
         return cost(centre) > 10 * cost(ref) + 1e-16 * scale
+
+
+def dlite_underconverged_generic(pts, centre, factor=1.001):
+    """same mechanism for interfaces that are no exact arcs: the library's centre is compared with a local minimiser of the very
+    same objective (spread of the distances to the centre), started at the library's centre and run to tight tolerances"""
+    import scipy.optimize as sco
+    with np.errstate(all="ignore"):
+        xs = np.array([p.real for p in pts])
+        ys = np.array([p.imag for p in pts])
+        size = max(xs.max() - xs.min(), ys.max() - ys.min(), 1e-300)
+
+        def res(c):
+            d = np.sqrt((xs - c[0]) ** 2 + (ys - c[1]) ** 2)
+            return d - d.mean()
+        c0 = np.array([centre.real, centre.imag])
+        f0 = float((res(c0) ** 2).sum())
+        best = f0
+        for start in (c0, np.array([xs.mean(), ys.mean()]) + 50 * size * np.array([-(ys[-1] - ys[0]), xs[-1] - xs[0]]) / size,
+                      np.array([xs.mean(), ys.mean()]) - 50 * size * np.array([-(ys[-1] - ys[0]), xs[-1] - xs[0]]) / size):
+            try:
+                r = sco.least_squares(res, start, xtol=1e-15, ftol=1e-15, gtol=1e-15, x_scale=size, max_nfev=400)
+                best = min(best, float(2 * r.cost))
+            except Exception:
+                pass
+        return f0 > factor * best + 1e-20 * size ** 2
